@@ -6,21 +6,29 @@ E-enum over a real SoftwareSwitch behind the byte-level connection (mc.env.Switc
     enqueue, output to a physical port / IN_PORT / TABLE / FLOOD / ALL / CONTROLLER) x a corpus of frames with valid
     lengths and checksums, delivered (a) as a flow entry hit by the frame received on port 1, (b) as a packet-out
     carrying the frame with in_port 1, (c) as a packet-out with in_port NONE; plus boundary arguments and a fixed set
-    of length-5/6 lists.  The action list travels as spec-encoded bytes (mc/refs/ofwire.py).
+    of length-5/6 lists.  The action list travels as spec-encoded bytes (mc/refs/ofwire.py).  Further frame families
+    (ICMP messages of every kind - errors quoting a truncated datagram included -, other tag types and EtherTypes, stacked
+    tags) go through the boundary-argument and the long lists in every delivery.  A packet-out is not a reception: rx
+    counters stay, OFPP_TABLE or not.
  B. port rules: ingress-port config x egress-port config (all 2^6 combinations of PORT_DOWN, NO_RECV, NO_RECV_STP,
     NO_FLOOD, NO_FWD, NO_PACKET_IN, set through real port-mod messages) x output kind x frames to {unicast, broadcast, 01:80:c2:00:00:00 (802.1D; UDP and
     LLC BPDU), :01, :0e, :0f, :10}.
  C. port-mod: every transition config a -> config b through a masked port-mod, read back from a features reply.
- D. port life-cycle histories (port-mod / delete_port / add_port) before delivery probes.
+ D. port life-cycle histories (port-mod / delete_port / add_port) before delivery probes; and histories WITH TRAFFIC IN
+    BETWEEN: port-mods of one bit or of all of PORT_DOWN/NO_RECV/NO_FLOOD/NO_FWD at once, delete_port, add_port, with the
+    whole probe set (outputs, FLOOD, ALL, IN_PORT, a frame from the wire on the port) run - and asserted - before any of them.
  E. value sweeps: one 16-bit word of every checksummed region (IPv4 header, UDP / TCP segment, ICMP message; even and odd
     lengths), the 802.1Q TCI, (tos, ttl), every payload length up to a full datagram (forwarded, sent to the controller,
-    as a table miss released from its buffer) and every value of the rewrite / max_len arguments run through ALL their
-    values; the frames of a chunk pass through one long-lived switch, whose counters are read back at the end.
+    as a table miss released from its buffer), every value of the rewrite / max_len arguments and every EtherType (outer, and
+    encapsulated in an 802.1Q tag; in front of an IPv4 datagram and in front of what would be one more tag) run through ALL
+    their values; the frames of a chunk pass through one long-lived switch, whose counters are read back at the end.
  F. histories on one switch: the controller's answer to a packet-in (flow-mod, packet-out / flow-mod naming the buffer,
     packet-out carrying the data) delivered RE-ENTRANTLY from inside the connection's send - i.e. inside rx_packet, an action
     list or an OFPP_TABLE resubmission - or afterwards; a fault (exception) at every callout of the switch (DpPacketOut event,
     packet-in send); a cable feeding emitted frames back in from inside the event; then probe traffic through the same switch.
     Steps in which a fault occurred are not asserted, everything after them is.
+
+ G. port numbers: two more ports numbered at every byte / sign boundary up to OFPP_MAX - 1, every output kind from and to them.
 
 Oracle: mc/refs/refpkt.py, a byte-level rewriter/interpreter written from the specification text.  Emissions are
 compared per port, byte for byte, in order; packet-ins are decoded with the independent wire decoder; port counters
@@ -93,6 +101,37 @@ def corpus ():
   C.append(("tcp-frag-first", R.eth(MAC_DST, MAC_SRC, R.ETH_IP, R.ipv4(IP_S, IP_D, 6, whole[:36], flags_frag=0x2000))))
   b = R.bpdu()
   C.append(("bpdu", (R.STP_MAC + MAC_SRC + struct.pack("!H", len(b)) + b).ljust(60, b"\0")))
+  # ---- WIDE_FRAMES: frame families that go through the boundary-argument and the fixed long lists in every delivery ----
+  # ICMP beyond echo.  Error messages QUOTE the datagram they are about: its IP header and the first bytes of its data
+  # (RFC 792: 64 bits; RFC 1812: as much as fits) - a quoted header whose total length says more than is quoted.
+  def icmp (typ, code, rest4, body):
+    m = bytearray(struct.pack("!BBH", typ, code, 0) + rest4 + body)
+    c = R.inet_csum(m); m[2] = c >> 8; m[3] = c & 0xff
+    return bytes(m)
+  I = lambda m: R.eth(MAC_DST, MAC_SRC, R.ETH_IP, R.ipv4(IP_S, IP_D, 1, m))
+  q_udp = R.ipv4(IP_D, IP_S, 17, R.udp(IP_D, IP_S, 0x2222, 0x1111, pay + pay[:28]), ttl=1)      # a 120 byte datagram
+  q_tcp = R.ipv4(IP_D, IP_S, 6, R.tcp(IP_D, IP_S, 0x4444, 0x3333, pay[:40]), ttl=1)
+  q_short = R.ipv4(IP_D, IP_S, 17, R.udp(IP_D, IP_S, 0x2222, 0x1111, pay[:8]), ttl=1)             # 36 bytes: quoted whole
+  for typ, code, nm, rest in ((3, 3, "unreach", b"\0" * 4), (3, 4, "fragneeded", b"\0\0\x05\xdc"), (11, 0, "ttl", b"\0" * 4),
+                              (5, 1, "redirect", IP_D), (4, 0, "quench", b"\0" * 4), (12, 0, "paramprob", b"\x08\0\0\0")):
+    C.append(("icmp-%s-quote-udp8" % nm, I(icmp(typ, code, rest, q_udp[:28]))))
+    if nm in ("unreach", "ttl", "redirect"):
+      C.append(("icmp-%s-quote-tcp8" % nm, I(icmp(typ, code, rest, q_tcp[:28]))))
+      C.append(("icmp-%s-quote-udp44" % nm, I(icmp(typ, code, rest, q_udp[:64]))))
+      C.append(("icmp-%s-whole-udp" % nm, I(icmp(typ, code, rest, q_short))))
+  C.append(("icmp-reply", I(R.icmp_echo(0x0102, 7, pay[:24], typ=0))))
+  C.append(("icmp-timestamp", I(icmp(13, 0, b"\0\1\0\2", bytes(range(12))))))
+  C.append(("icmp-mask-reply", I(icmp(18, 0, b"\0\1\0\2", b"\xff\xff\xff\0"))))
+  C.append(("icmp-router-adv", I(icmp(9, 0, b"\x01\x02\x00\x1e", IP_S + b"\0\0\0\1"))))
+  C.append(("icmp-type40", I(icmp(40, 0, b"\0\1\0\2", pay[:11]))))
+  # other EtherTypes in front of what would be an 802.1Q tag + IPv4/UDP, had the type been 0x8100: OpenFlow 1.0 knows one tag
+  # type (0x8100); 802.1ad service tags (0x88a8), the older QinQ types 0x9100/0x9200/0x9300 and everything else are "other"
+  # frames (no VLAN to set or strip, no IP header to rewrite).  Section E runs ALL 65536 types; these go through every delivery.
+  taglike = lambda et: MAC_DST + MAC_SRC + struct.pack("!HHH", et, 0x6123, R.ETH_IP) + u(pay[:16])
+  for et in (0x88a8, 0x9100, 0x9200, 0x8101, 0x86dd, 0x8847):
+    C.append(("etype-%04x-taglike" % et, taglike(et)))
+  C.append(("udp-tag-tag", R.eth(MAC_DST, MAC_SRC, R.ETH_VLAN, struct.pack("!HH", 0xa456, R.ETH_IP) + u(pay[:16]), vlan=TAG)))
+  C.append(("udp-tag-stag", R.eth(MAC_DST, MAC_SRC, 0x88a8, struct.pack("!HH", 0xa456, R.ETH_IP) + u(pay[:16]), vlan=TAG)))
   for n, f in C:
     assert not R.verify(f), (n, R.verify(f))
     assert CTL_MAX < len(f) < MISS, n
@@ -104,6 +143,21 @@ EXTRA_FRAMES = ("tcp-opt-tag", "tcp-odd", "udp-ipopt", "udp-cfi", "arp-pad", "ud
 # fragments: only link-layer rewrites are combined with them (a fragment's L4 checksum cannot be recomputed from the
 # fragment, and OpenFlow 1.0 does not say whether transport rewrites apply to first fragments)
 L2_ONLY = ("udp-frag-first", "udp-frag-later", "tcp-frag-first")
+WIDE_FRAMES = tuple(["icmp-%s-quote-udp8" % n for n in ("unreach", "fragneeded", "ttl", "redirect", "quench", "paramprob")]
+                    + ["icmp-%s-%s" % (n, k) for n in ("unreach", "ttl", "redirect") for k in ("quote-tcp8", "quote-udp44", "whole-udp")]
+                    + ["icmp-reply", "icmp-timestamp", "icmp-mask-reply", "icmp-router-adv", "icmp-type40"]
+                    + ["etype-%04x-taglike" % et for et in (0x88a8, 0x9100, 0x9200, 0x8101, 0x86dd, 0x8847)]
+                    + ["udp-tag-tag", "udp-tag-stag"])
+
+
+def family (fname):
+  """Frame families with their own violation keys (so that a listed finding about one of them cannot explain a violation
+  on ordinary frames): first fragments, link-layer padding, ICMP errors quoting a truncated datagram, unusual EtherTypes."""
+  if "frag-first" in fname: return "first-fragment"
+  if fname.endswith("-pad"): return "padded"
+  if fname.startswith("icmp-") and "-quote-" in fname: return "icmp-quote"
+  if fname.startswith("etype-"): return "other-ethertype"
+  return ""
 L34_REWRITES = ("set_nw_src", "set_nw_dst", "set_nw_tos", "set_tp_src", "set_tp_dst")
 
 
@@ -151,6 +205,10 @@ class _Labels (dict):
       return (name, int(arg, 16))
     if eq and name == "ctl":
       return ("output", R.OFPP_CONTROLLER, int(arg, 16))
+    if eq and name == "out":
+      return ("output", int(arg, 16), 0)
+    if eq and name == "enq":
+      return ("enqueue", int(arg, 16), 1)
     raise KeyError(label)
 
 
@@ -271,6 +329,7 @@ class Exp (object):
     self.per_port = dict((p, []) for p in ports)     # port -> [(frame, label of the output action)]
     self.pins = []                                   # [(reason, in_port, frame, max_len, label)]
     self.rx = None                                   # None (not asserted) or {port: set of allowed (packets, bytes)}
+    self.resub = {}                                  # port -> (n, bytes) of the OFPP_TABLE resubmissions naming it as in_port
 
 
 def expect_actions (frame, labels, in_port, ports_cfg, table=True):
@@ -287,6 +346,7 @@ def expect_actions (frame, labels, in_port, ports_cfg, table=True):
       e.pins.append((W.OFPR_ACTION, in_port, x[1], x[2], lab))
     elif x[0] == "table":
       cur = x[1]
+      n, b = e.resub.get(in_port, (0, 0)); e.resub[in_port] = (n + 1, b + len(cur))
       if in_port == IN and cur[:6] == MAC_DST and table:
         if R.can_tx(ports_cfg[TPORT]): e.per_port[TPORT].append((cur, lab))
       else:
@@ -366,6 +426,11 @@ def check_counters (exp, obs):
       allowed = exp.rx.get(p, set([(0, 0)]))
       if (s["rx_packets"], s["rx_bytes"]) not in allowed:
         f = "rx_packets" if s["rx_packets"] not in [a[0] for a in allowed] else "rx_bytes"
+        n, b = exp.resub.get(p, (0, 0))
+        if n and s["rx_packets"] - n in [a[0] for a in allowed]:
+          # exactly what a switch reports that counts every frame a packet-out sends to OFPP_TABLE as RECEIVED on the port
+          # the packet-out names as in_port
+          f = "rx:table-resubmission-counted"
         recs.append(dict(clause="counters", field=f,
                          what="port %d rx_packets/rx_bytes %d/%d, accepted traffic was %s"
                               % (p, s["rx_packets"], s["rx_bytes"], sorted(allowed))))
@@ -461,9 +526,8 @@ def run_actions_case (frames, fname, mode, labels):
     sw.feed(W.packet_out(sw.nxid(), wire, frame, in_port=in_port))
   if mode not in BUF_MODES:
     exp = expect_actions(frame, labels, in_port, PORTS0)
-    has_table = "table" in labels
     if mode == "flow": exp.rx = {IN: set([(1, len(frame))])}
-    elif not has_table: exp.rx = {}
+    else: exp.rx = {}         # a packet-out is not a reception, whatever its actions (OFPP_TABLE included)
   bad = []
   if pre:
     bad = [("%s:%s" % (PID, pre[0][0]), "frame %s, [%s] as %s: %s" % (fname, ",".join(labels), mode, pre[0][1]))]
@@ -504,8 +568,8 @@ def run_actions_case (frames, fname, mode, labels):
         k = c
       # special frame families get their own keys, so that a listed finding about them (first fragments, padded
       # frames) cannot explain a violation on ordinary frames
-      fam = "first-fragment" if "frag-first" in fname else ("padded" if fname.endswith("-pad") else "")
-      if fam: k += ":" + fam
+      fam = family(fname)
+      if fam and not (c == "counters" and r["field"].startswith("rx:")): k += ":" + fam
       stage = BEFORE_RELEASE if (mode in BUF_MODES and r.get("index") == 0) else ""
       bad.append(("%s:%s" % (PID, k), "frame %s, [%s] as %s: %s%s" % (fname, ",".join(labels), mode, stage, r["what"])))
   summary = (tuple((p, digest(f)) for p, f in obs.out),
@@ -536,7 +600,7 @@ def minimise (frames, fname, mode, labels, cache):
 def buffered_key (key):
   """C12:ports:<outputs>:<dir>:<role>... -> C12:buffered:ports:<dir>:<role>...; other clauses: C12:buffered:<rest>."""
   parts = key.split(":")
-  if parts[-1] in ("padded", "first-fragment"): parts = parts[:-1]
+  if parts[-1] in ("padded", "first-fragment", "other-ethertype"): parts = parts[:-1]
   if len(parts) > 2 and parts[1] == "ports": parts = parts[:2] + parts[3:]
   if parts[1] == "raises": return key
   return ":".join([parts[0], "buffered"] + parts[1:])
@@ -854,7 +918,39 @@ def _work_portmod (item):
 # ---------------------------------------------------------------------------------------------
 LC_BITS = (("down", R.PC_PORT_DOWN), ("nofwd", R.PC_NO_FWD), ("noflood", R.PC_NO_FLOOD))
 LC_OPS = tuple("%s%s" % (sign, n) for n, b in LC_BITS for sign in ("+", "-")) + ("del", "add")
-LC_KINDS = ("out2", "enq2", "flood", "all", "inport")
+LC_KINDS = ("out2", "enq2", "flood", "all", "inport", "from2")      # from2: flow entry (in_port 2 -> output:3) hit by a frame from the wire
+# the wider operation alphabet of the histories WITH TRAFFIC IN BETWEEN: port-mods of one bit (now also NO_RECV), port-mods
+# that set all four bits at once to every one of the 16 values ("=<hex>"), delete_port, add_port - and "probe": the whole
+# set of delivery probes, asserted against the configuration the port has at that point of the history
+LC_MASK4 = R.PC_PORT_DOWN | R.PC_NO_FWD | R.PC_NO_FLOOD | R.PC_NO_RECV
+LC_WIDE_OPS = (LC_OPS[:-2] + ("+norecv", "-norecv")
+               + tuple("=%x" % (d * R.PC_PORT_DOWN | r * R.PC_NO_RECV | f * R.PC_NO_FLOOD | w * R.PC_NO_FWD)
+                       for d in (0, 1) for r in (0, 1) for f in (0, 1) for w in (0, 1)) + ("del", "add"))
+
+
+def traffic_histories (nops):
+  """Every sequence of <= nops operations of LC_WIDE_OPS (delete/add only where the port is there / is not) with the probe
+  set inserted, or not, in front of each operation - except the histories without any probe in between, when they are
+  lifecycle_histories (the probe set always follows the last operation)."""
+  base = [((), True)]
+  out = []
+  for d in range(nops):
+    nxt = []
+    for h, present in base:
+      for op in LC_WIDE_OPS:
+        if op == "del" and not present: continue
+        if op == "add" and present: continue
+        nxt.append((h + (op,), (op == "add") or (present and op != "del")))
+    base = nxt
+    for h, present in nxt:
+      for mask in range(1 << len(h)):
+        if mask == 0 and all(op in LC_OPS for op in h): continue
+        hh = ()
+        for i, op in enumerate(h):
+          if mask >> i & 1: hh += ("probe",)
+          hh += (op,)
+        out.append(hh)
+  return out
 
 
 def lifecycle_histories (depth):
@@ -886,9 +982,70 @@ def run_lifecycle_case (frames, history):
   if ports is None: return [("%s:port-mod:no-features" % PID, "features request not answered")], None, obs.calls
   hw = ports[EG]["hw_addr"]
   cfg = 0; present = True; removed = None; readded = False
-  bits = dict(LC_BITS)
+  bits = dict(LC_BITS + (("norecv", R.PC_NO_RECV),))
+  frame = frames["udp"]
+  summary = []
+  traffic = False           # a probe set has run
+  since_add = [0]           # number of emissions before the port was last added
+  stale = ""                # ":after-traffic" once a configuration change FOLLOWED traffic
+
+  def probe_set ():
+    """Every delivery probe against the configuration the port has now.  Returns False when something differed."""
+    shape = ("readded-port" if readded and present else ("removed-port" if not present else "port")) + stale
+    cfgs = dict((p, 0) for p in PORTS0 if p != EG)
+    if present: cfgs[EG] = cfg
+    n0 = len(bad)
+    p0, e0 = len(obs.pins), len(obs.errors)
+    for mode in ("pout", "flow"):
+      for kind in LC_KINDS:
+        if kind == "from2" and mode == "pout": continue
+        inp = EG if kind in ("inport", "from2") else IN
+        label = "out3" if kind == "from2" else kind
+        o0 = len(obs.out)
+        if mode == "pout":
+          sw.feed(W.packet_out(sw.nxid(), encode((label,)), frame, in_port=inp))
+        else:
+          sw.feed(W.flow_mod(sw.nxid(), W.match_fields(in_port=inp), W.OFPFC_ADD, encode((label,))))
+          sw.rx(frame, inp)
+        if obs.raised is not None:
+          v("raises:%s" % site_of(obs.raised), "%s: %s (probe %s as %s)" % (type(obs.raised).__name__, obs.raised, kind, mode))
+          return False
+        got = {}
+        for p, f in obs.out[o0:]: got.setdefault(p, []).append(f)
+        want = R.out_ports(LABELS[label][1], inp, cfgs)
+        either = False
+        if mode == "flow" and inp == EG:
+          # the frame comes from the wire on the port under test: it must be there and willing to receive
+          if not present or not R.accepts(cfg, frame): want = []
+          elif cfg & R.PC_PORT_DOWN: either = True          # frames arriving on a downed port: unspecified
+        summary.append(tuple(sorted((p, len(fs)) for p, fs in got.items())))
+        if either and not got: continue
+        for p in sorted(set(got) | set(want)):
+          n = len(got.get(p, [])); w = 1 if p in want else 0
+          if n > w:
+            c = cfgs.get(p)
+            why = ("absent" if c is None else "ingress-port" if (p == inp and kind != "inport") else "port-down" if c & R.PC_PORT_DOWN
+                   else "no-fwd" if c & R.PC_NO_FWD else "no-flood" if (kind == "flood" and c & R.PC_NO_FLOOD)
+                   else "no-recv" if (mode == "flow" and inp == EG and present and cfg & R.PC_NO_RECV)
+                   else "absent-ingress" if (mode == "flow" and inp == EG and not present) else "unexplained")
+            v("emitted-on:%s:%s" % (why, shape), "probe %s as %s (in_port %d): %d frame(s) emitted on port %d (config %s), %d expected"
+              % (kind, mode, inp, n, p, "absent" if c is None else flags(c), w))
+          elif n < w:
+            v("missing:%s:%s" % (kind, shape), "probe %s as %s (in_port %d): nothing emitted on port %d (config %s)" % (kind, mode, inp, p, flags(cfgs[p])))
+          elif n and got[p][0] != frame:
+            v("bytes:%s" % R.first_diff_layer(frame, got[p][0]), "probe %s as %s: frame on port %d altered" % (kind, mode, p))
+        if len(bad) != n0: return False
+    if len(obs.pins) != p0: v("packet-in", "%d unexpected packet-in(s) from the probes" % (len(obs.pins) - p0))
+    if len(obs.errors) != e0: v("error-reply:%d.%d" % (obs.errors[e0]["etype"], obs.errors[e0]["code"]), "a probe was answered with OFPT_ERROR")
+    return len(bad) == n0
+
   for op in history:
     nerr = len(obs.errors)
+    if op == "probe":
+      if not probe_set(): return bad, None, obs.calls
+      traffic = True
+      continue
+    if traffic: stale = ":after-traffic"
     if op == "del" or op == "add":
       obs.calls += 1
       try:
@@ -897,11 +1054,13 @@ def run_lifecycle_case (frames, history):
       except Exception as e:
         obs.raised = e
       sw.collect()
+      if op == "add": since_add[0] = len(obs.out)
     else:
-      bit = bits[op[1:]]
-      sw.feed(W.port_mod(sw.nxid(), EG, hw, bit if op[0] == "+" else 0, bit))
+      if op[0] == "=": mask = LC_MASK4; val = int(op[1:], 16)
+      else: mask = bits[op[1:]]; val = mask if op[0] == "+" else 0
+      sw.feed(W.port_mod(sw.nxid(), EG, hw, val, mask))
       if present:
-        cfg = (cfg | bit) if op[0] == "+" else (cfg & ~bit)
+        cfg = (cfg & ~mask) | val
         if len(obs.errors) != nerr:
           v("port-mod-refused", "port-mod %s on the existing port answered with error %r" % (op, (obs.errors[-1]["etype"], obs.errors[-1]["code"])))
       elif len(obs.errors) != nerr + 1 or (obs.errors[-1]["etype"], obs.errors[-1]["code"]) != (W.OFPET_PORT_MOD_FAILED, W.OFPPMFC_BAD_PORT):
@@ -910,7 +1069,7 @@ def run_lifecycle_case (frames, history):
       v("raises:%s" % site_of(obs.raised), "%s: %s during %s" % (type(obs.raised).__name__, obs.raised, op))
       return bad, None, obs.calls
   if bad: return bad, None, obs.calls
-  shape = "readded-port" if readded and present else ("removed-port" if not present else "port")
+  shape = ("readded-port" if readded and present else ("removed-port" if not present else "port")) + stale
   # what the switch itself reports
   after = sw.features()
   if after is None: v("no-features", "features request not answered"); return bad, None, obs.calls
@@ -921,42 +1080,7 @@ def run_lifecycle_case (frames, history):
       "features reply reports config %s, the port-mods (and the port object re-added) give %s" % (flags(after[EG]["config"] & SIX), flags(cfg)))
   cfgs = dict((p, 0) for p in PORTS0 if p != EG)
   if present: cfgs[EG] = cfg
-  frame = frames["udp"]
-  obs.pins = []; obs.errors = []
-  summary = []
-  for mode in ("pout", "flow"):
-    for kind in LC_KINDS:
-      inp = EG if kind == "inport" else IN
-      o0 = len(obs.out)
-      if mode == "pout":
-        sw.feed(W.packet_out(sw.nxid(), encode((kind,)), frame, in_port=inp))
-      else:
-        sw.feed(W.flow_mod(sw.nxid(), W.match_fields(in_port=inp), W.OFPFC_ADD, encode((kind,))))
-        sw.rx(frame, inp)
-      if obs.raised is not None:
-        v("raises:%s" % site_of(obs.raised), "%s: %s (probe %s as %s)" % (type(obs.raised).__name__, obs.raised, kind, mode))
-        return bad, None, obs.calls
-      got = {}
-      for p, f in obs.out[o0:]: got.setdefault(p, []).append(f)
-      want = R.out_ports(LABELS[kind][1], inp, cfgs)
-      summary.append(tuple(sorted((p, len(fs)) for p, fs in got.items())))
-      for p in sorted(set(got) | set(want)):
-        n = len(got.get(p, [])); w = 1 if p in want else 0
-        if n > w:
-          c = cfgs.get(p)
-          why = ("absent" if c is None else "ingress-port" if (p == inp and kind != "inport") else "port-down" if c & R.PC_PORT_DOWN
-                 else "no-fwd" if c & R.PC_NO_FWD else "no-flood" if (kind == "flood" and c & R.PC_NO_FLOOD) else "unexplained")
-          v("emitted-on:%s:%s" % (why, shape), "probe %s as %s (in_port %d): %d frame(s) emitted on port %d (config %s), %d expected"
-            % (kind, mode, inp, n, p, "absent" if c is None else flags(c), w))
-        elif n < w:
-          v("missing:%s:%s" % (kind, shape), "probe %s as %s (in_port %d): nothing emitted on port %d (config %s)" % (kind, mode, inp, p, flags(cfgs[p])))
-        elif n and got[p][0] != frame:
-          v("bytes:%s" % R.first_diff_layer(frame, got[p][0]), "probe %s as %s: frame on port %d altered" % (kind, mode, p))
-      if bad: break
-    if bad: break
-  if not bad:
-    if obs.pins: v("packet-in", "%d unexpected packet-in(s) from the probes" % len(obs.pins))
-    if obs.errors: v("error-reply:%d.%d" % (obs.errors[0]["etype"], obs.errors[0]["code"]), "a probe was answered with OFPT_ERROR")
+  if probe_set():
     sw.port_stats()
     if obs.stats is None: v("counters:no-reply", "port-stats request not answered")
     else:
@@ -964,8 +1088,9 @@ def run_lifecycle_case (frames, history):
       for p in sorted(cfgs):
         s = obs.stats.get(p)
         tx = [f for q, f in obs.out if q == p]
+        tx2 = [f for q, f in obs.out[since_add[0]:] if q == p]    # whether counters restart when a port is added again is not specified
         if s is None: v("counters:no-entry", "no statistics entry for existing port %d" % p)
-        elif (s["tx_packets"], s["tx_bytes"]) != (len(tx), sum(len(f) for f in tx)):
+        elif (s["tx_packets"], s["tx_bytes"]) not in ((len(tx), sum(len(f) for f in tx)), (len(tx2), sum(len(f) for f in tx2))):
           v("counters:tx:%s" % shape, "port %d tx_packets/tx_bytes %d/%d, %d frame(s) / %d bytes were emitted since the history"
             % (p, s["tx_packets"], s["tx_bytes"], len(tx), sum(len(f) for f in tx)))
   return bad, (present, cfg, tuple(summary)), obs.calls
@@ -984,7 +1109,7 @@ def _work_lifecycle (item):
       rep.violation(k, what, dict(kind="lifecycle", history=list(h)))
     if not bad and rep.evaluations % 150 == 5:
       rep.sample(dict(port_history=list(h), port_present=summary[0], config=flags(summary[1]),
-                      probes=["%s/%s" % (k, m) for m in ("pout", "flow") for k in LC_KINDS], emitted_ports_per_probe=[list(x) for x in summary[2]]))
+                      probes=["%s/%s" % (k, m) for m in ("pout", "flow") for k in LC_KINDS if (k, m) != ("from2", "pout")], emitted_ports_per_probe=[list(x) for x in summary[2]]))
   rep.state_count = rep.evaluations
   return rep
 
@@ -1048,6 +1173,19 @@ S3 = ("out2", "nw_src_hi", "out3", "tp_dst", "out4")
 TS_OPT = bytes.fromhex("0101" "080a" "00000000" "00000000")     # NOP NOP timestamp; the swept word is the low half of TSval
 
 
+# every rewrite on the frame as received (under a type that is neither 0x8100 nor 0x0800 each is a no-op), then the two that
+# push a tag; for the tagged frames the tag rewrites, then strip and the network / transport rewrites on the stripped frame
+ET_LIST = ("strip", "out2", "nw_src_hi", "nw_dst_hi", "tos", "out3", "tp_src", "tp_dst", "out4", "vid", "pcp", "inport")
+ET_LIST_TAGGED = ("nw_src_hi", "tos", "out2", "tp_dst", "out3", "vid", "pcp", "out4", "strip", "nw_dst_hi", "tp_src", "inport")
+_ET_BODY = {}
+
+def _et_frame (l2, proto):
+  if proto not in _ET_BODY:
+    seg = R.udp(IP_S, IP_D, 0x1111, 0x2222, PAY[:16]) if proto == 17 else R.tcp(IP_S, IP_D, 0x3333, 0x4444, PAY[:12])
+    _ET_BODY[proto] = R.ipv4(IP_S, IP_D, proto, seg, tos=0x28)
+  return MAC_DST + MAC_SRC + l2 + _ET_BODY[proto]
+
+
 def _h (x): return "%#x" % x
 def _rot (v): return ((v << 5) | (v >> 11)) & 0xffff
 
@@ -1091,6 +1229,16 @@ SWEEPS = [
    "frames udp, tcp-tag, icmp, udp-ipopt through [set_nw_tos d, output:2, set_nw_src, output:3], all 64 DSCP values"),
   ("args-ctl", "q", "pout", 512, lambda v: FR[("tcp-tag", "udp-odd")[v >> 8]], lambda v: ("tp_dst", "ctl=" + _h(v & 255), "out2"),
    "frames tcp-tag (70 bytes), udp-odd (47 bytes) through [set_tp_dst, output:CONTROLLER max_len m, output:2], every m in 0..255"),
+  # -- every EtherType: OpenFlow 1.0 knows ONE tag type (0x8100) and rewrites network / transport fields of IPv4 (0x0800) only;
+  #    under every other type the bytes that follow are opaque, whatever they look like ---------------------------------------
+  ("etype-outer-taglike", "q", "flow", 65536, lambda v: _et_frame(struct.pack("!HHH", v, 0x6123, R.ETH_IP), 17), lambda v: ET_LIST,
+   "EtherType v followed by what would be an 802.1Q TCI, type 0x0800 and an IPv4/UDP datagram if v were 0x8100"),
+  ("etype-outer-ip", "q", "flow", 65536, lambda v: _et_frame(_two(v), 6), lambda v: ET_LIST,
+   "EtherType v followed by an IPv4/TCP datagram"),
+  ("etype-inner-ip", "q", "flow", 65536, lambda v: _et_frame(struct.pack("!HHH", R.ETH_VLAN, 0x6123, v), 17), lambda v: ET_LIST_TAGGED,
+   "802.1Q tagged frame whose encapsulated EtherType is v, followed by an IPv4/UDP datagram"),
+  ("etype-inner-taglike", "q", "flow", 65536, lambda v: _et_frame(struct.pack("!HHHHH", R.ETH_VLAN, 0x6123, v, 0xa456, R.ETH_IP), 17),
+   lambda v: ET_LIST_TAGGED, "802.1Q tagged frame whose encapsulated EtherType is v, followed by a second TCI, type 0x0800 and an IPv4/UDP datagram"),
   # -- thorough tier: other positions of the swept word, other carry counts, options, tagged argument sweeps -----------------------
   ("udp-even-3", "t", "flow", 65536, lambda v: sweep_l4(17, v, 16, 14, ident=v, tci=_tci(v)), lambda v: S3,
    "as udp-even, through three stages"),
@@ -1327,6 +1475,9 @@ class RefSw (object):
     self.shared = shared
     self.cable = cable or {}
     self.badarg = False       # an action list that cannot be serialised was carried out (tx counters not asserted then)
+    self.any_fault = False    # some step was cut short by a fault (rx counters not asserted then)
+    self.rxc = {}             # port -> [frames, bytes] received from the wire (deliveries "rx" and the cable)
+    self.resubc = {}          # port -> [frames, bytes] sent to OFPP_TABLE with that in_port (NOT receptions)
 
   def step (self, st, react_n):
     dl, port, outer, reaction, fault = st[:5]
@@ -1339,7 +1490,9 @@ class RefSw (object):
     self.reacts_left = react_n if reaction else 0
     self.reacted = 0
     self.later = []
-    if dl == "rx": self.unit(self.receive, [frame], port, "rx")
+    if dl == "rx":
+      self.count(self.rxc, port, frame)
+      self.unit(self.receive, [frame], port, "rx")
     else: self.unit(self.process, [frame], outer, port, None)
     for cell, in_port in self.later:          # answers sent after the message had been processed
       self.unit(self.process, cell, reaction[2], in_port, None)
@@ -1347,7 +1500,10 @@ class RefSw (object):
 
   def unit (self, fn, *a):
     try: fn(*a)
-    except _Fault: self.faulted = True
+    except _Fault: self.faulted = self.any_fault = True
+
+  def count (self, c, port, f):
+    x = c.setdefault(port, [0, 0]); x[0] += 1; x[1] += len(f)
 
   def callout (self):
     self.callouts += 1
@@ -1356,7 +1512,9 @@ class RefSw (object):
   def emit (self, p, f, lab):
     self.ev.append(("out", p, f, lab))
     self.callout()
-    if p in self.cable: self.receive([f], self.cable[p], "rx")      # the frame comes back in on another port at once
+    if p in self.cable:                                             # the frame comes back in on another port at once
+      self.count(self.rxc, self.cable[p], f)
+      self.receive([f], self.cable[p], "rx")
 
   def pin (self, reason, in_port, cell, mx, lab):
     f = cell[0]
@@ -1384,7 +1542,9 @@ class RefSw (object):
         self.badarg = True
         raise _Fault()
       if a[1] == R.OFPP_CONTROLLER: self.pin(W.OFPR_ACTION, in_port, cell, a[2], lab)
-      elif a[1] == R.OFPP_TABLE: self.receive(cell, in_port, lab)
+      elif a[1] == R.OFPP_TABLE:
+        self.count(self.resubc, in_port, cell[0])
+        self.receive(cell, in_port, lab)
       else:
         for p in R.out_ports(a[1], in_port, PORTS0): self.emit(p, cell[0], lab)
 
@@ -1588,10 +1748,14 @@ def run_history (frames, steps, react_n=1, tail=True, trace=None, cable=()):
     elif not model.badarg:
       obs.out = out_all
       e = Exp(PORTS0)
+      if not model.any_fault:
+        # receptions: frames from the wire (and from the cable); a packet-out, a buffer release, an OFPP_TABLE resubmission is none
+        e.rx = dict((p, set([tuple(model.rxc.get(p, (0, 0)))])) for p in PORTS0)
+        e.resub = dict((p, tuple(c)) for p, c in model.resubc.items())
       for r in check_counters(e, obs):
-        if r["field"].startswith("rx"): continue
-        bad.append(("%s:history:counters:%s:%s" % (PID, r["field"], phase),
-                    "after %s: %s" % (" | ".join(_h_text(s) for s in steps), r["what"])))
+        if r["field"] == "rx:table-resubmission-counted": k = "%s:counters:%s" % (PID, r["field"])      # one key with section A
+        else: k = "%s:history:counters:%s:%s" % (PID, r["field"], phase)
+        bad.append((k, "after %s: %s" % (" | ".join(_h_text(s) for s in allsteps), r["what"])))
   return bad, tuple(summary), obs.calls
 
 
@@ -1615,7 +1779,109 @@ def _work_history (item):
 
 
 # ---------------------------------------------------------------------------------------------
+# G. port numbers
+# ---------------------------------------------------------------------------------------------
+# Ports 1..4 do not show whether a port number is handled as the 16-bit quantity it is.  Here the switch has two more
+# ports, numbered a and b out of PN_NUMBERS (every byte / sign boundary up to OFPP_MAX - 1), added through add_port; the
+# frame enters on a.  Four more cases have a port numbered OFPP_MAX itself.
+PN_NUMBERS = (0x7f, 0x80, 0xff, 0x100, 0x101, 0x7fff, 0x8000, 0xfe00, R.OFPP_MAX - 1)
+PN_KINDS = ("out-b", "enq-b", "out-a", "out2", "inport", "flood", "all", "ctl")
+
+
+def run_portnum_case (frames, a, b):
+  sw = Sw(); obs = sw.obs
+  bad = []
+  # OFPP_MAX (0xff00) is "the maximum number of physical switch ports" and ports are numbered from 1: it is the highest
+  # number a physical port can have (the virtual ports start at 0xfff8).  A case that involves it reports every difference
+  # under one key of its own; its expectation is that of the same case with the port numbered 0xfe01.
+  top = R.OFPP_MAX in (a, b)
+  ren = lambda n: 0xfe01 if n == R.OFPP_MAX else n          # (a number no case uses)
+  def v (k, what):
+    bad.append(("%s:portnum:%s" % (PID, "ofpp-max-is-a-physical-port" if top and not k.startswith("features") else k),
+                "switch with ports 1-4, %#x, %#x; ingress port %#x: %s" % (a, b, a, what)))
+  for n in (a, b):
+    obs.calls += 1
+    try: sw.st.sw.add_port(sw.st.sw.generate_port(n, name="p%x" % n))     # (the default name of a port >= 1000 does not fit the field)
+    except Exception as e: obs.raised = e
+  sw.collect()
+  ports = sw.features() if obs.raised is None else None
+  if ports is None or sorted(ports) != sorted(list(PORTS0) + [a, b]):
+    v("features", "features reply lists ports %r (%r)" % (ports and sorted(ports), obs.raised)); return bad, None, obs.calls
+  cfgs = dict(PORTS0); cfgs[a] = 0; cfgs[b] = 0
+  frame = frames["udp"]
+  summary = []
+  for phase in ("plain", "b-no-flood", "b-no-fwd"):
+    if phase != "plain":
+      bit = R.PC_NO_FLOOD if phase == "b-no-flood" else R.PC_NO_FWD
+      sw.feed(W.port_mod(sw.nxid(), b, ports[b]["hw_addr"], bit, R.PC_NO_FLOOD | R.PC_NO_FWD))
+      cfgs[b] = bit
+      if obs.errors or obs.raised is not None:
+        v("port-mod-refused", "port-mod naming port %#x: %r %r" % (b, [(e["etype"], e["code"]) for e in obs.errors], obs.raised)); return bad, None, obs.calls
+    for mode in ("pout", "flow"):
+      for kind in PN_KINDS:
+        label = {"out-b": "out=%#x" % b, "enq-b": "enq=%#x" % b, "out-a": "out=%#x" % a}.get(kind, kind)
+        o0, p0 = len(obs.out), len(obs.pins)
+        if mode == "pout":
+          sw.feed(W.packet_out(sw.nxid(), encode((label,)), frame, in_port=a))
+        else:
+          sw.feed(W.flow_mod(sw.nxid(), W.match_fields(in_port=a), W.OFPFC_ADD, encode((label,))))
+          sw.rx(frame, a)
+        if obs.raised is not None or obs.errors:
+          v("raises:%s" % site_of(obs.raised) if obs.raised is not None else "error-reply:%d.%d" % (obs.errors[0]["etype"], obs.errors[0]["code"]),
+            "[%s] as %s, %s: %r %r" % (kind, mode, phase, obs.raised, [(e["etype"], e["code"]) for e in obs.errors]))
+          return bad, None, obs.calls
+        step = Obs(); step.out = obs.out[o0:]; step.pins = obs.pins[p0:]
+        summary.append((tuple((q, digest(f)) for q, f in step.out), tuple((q["reason"], q["in_port"]) for q in step.pins)))
+        exp = expect_actions(frame, (label,), a, cfgs, table=False)
+        if top:
+          label2 = {"out-b": "out=%#x" % ren(b), "enq-b": "enq=%#x" % ren(b), "out-a": "out=%#x" % ren(a)}.get(kind, kind)
+          x = expect_actions(frame, (label2,), ren(a), dict((ren(q), c) for q, c in cfgs.items()), table=False)
+          exp.per_port = dict((q, x.per_port[ren(q)]) for q in cfgs)
+          exp.pins = [(t[0], a) + tuple(t[2:]) for t in x.pins]
+        for r in compare(exp, step):
+          c = r["clause"]
+          if c == "ports":
+            who = "port-a" if r["port"] == a else "port-b" if r["port"] == b else "low-port"
+            v("ports:%s:%s:%s" % (kind, r["dir"], who), "[%s] as %s, %s: %s" % (kind, mode, phase, r["what"]))
+          elif c == "bytes": v("bytes:%s" % r["layers"], "[%s] as %s, %s: %s" % (kind, mode, phase, r["what"]))
+          else: v("packet-in:%s" % r["sub"], "[%s] as %s, %s: %s" % (kind, mode, phase, r["what"]))
+        if bad: return bad, None, obs.calls
+  # counters, per port and for all ports
+  nrx = 3 * len(PN_KINDS)
+  e = Exp(cfgs); e.rx = {a: set([(nrx, nrx * len(frame))])}
+  sw.port_stats()
+  if obs.raised is not None: v("counters:raises:%s" % site_of(obs.raised), "port-stats request raised %r" % (obs.raised,))
+  else:
+    for r in check_counters(e, obs): v("counters:%s" % r["field"], r["what"])
+    for n in (a, b):
+      rr = [d for d in sw.feed(W.stats_request(sw.nxid(), W.OFPST_PORT, W.port_stats_body(n))) if d["type"] == W.STATS_REPLY]
+      got = [q["port_no"] for q in rr[0]["ports"]] if len(rr) == 1 and rr[0].get("wellformed") else None
+      if got != [n] or rr[0]["ports"][0] != (obs.stats or {}).get(n):
+        v("counters:single-port-request", "port-stats request naming port %#x answered with entries for %r / other numbers than the request for all ports" % (n, got))
+  return bad, tuple(summary), obs.calls
+
+
+def _work_portnum (item):
+  from mc.env import boot
+  boot()
+  frames = dict(corpus())
+  rep = Report(PID, "model_checking")
+  for a, b in item[0]:
+    bad, summary, calls = run_portnum_case(frames, a, b)
+    rep.evaluations += 1; rep.transitions += calls
+    rep.outcome(("pn", summary, tuple(sorted(k for k, w in bad))))
+    for k, what in bad:
+      rep.violation(k, what, dict(kind="portnum", a=a, b=b))
+    if not bad and (a, b) == (PN_NUMBERS[0], PN_NUMBERS[-1]):
+      rep.sample(dict(extra_ports=[a, b], ingress=a, probes=list(PN_KINDS), phases=["plain", "b-no-flood", "b-no-fwd"],
+                      emitted_ports_per_probe=[[q for q, d in x[0]] for x in summary]))
+  rep.state_count = rep.evaluations
+  return rep
+
+
+# ---------------------------------------------------------------------------------------------
 def _work (item):
+  if item[0] == "portnum": return _work_portnum(item[1:])
   if item[0] == "history": return _work_history(item[1:])
   if item[0] == "sweep": return _work_sweep(item[1:])
   if item[0] == "lifecycle": return _work_lifecycle(item[1:])
@@ -1642,14 +1908,14 @@ def run (cfg):
     for f in EXTRA_FRAMES:
       for mode in ("flow", "pout"):
         for first in firsts: items.append(("lists", f, mode, first, L_extra))
-    for f in MAIN_FRAMES + EXTRA_FRAMES:
+    for f in MAIN_FRAMES + EXTRA_FRAMES + WIDE_FRAMES:
       for mode in ("flow", "pout"):
         items.append(("long", f, mode, None, 0))
         items.append(("args", f, mode, None, 0))
     # buffered deliveries (lists with at least one output)
-    for f in MAIN_FRAMES + EXTRA_FRAMES:
+    for f in MAIN_FRAMES + EXTRA_FRAMES + WIDE_FRAMES:
       main = f in MAIN_FRAMES
-      for first in firsts[1:]:
+      for first in (firsts[1:] if f not in WIDE_FRAMES else ()):
         items.append(("lists", f, "buf-ctl", first, L_main if (main or cfg.quick) else L_extra))
         for mode in ("buf-miss", "buf-ctl-fm", "buf-miss-fm", "buf-po", "buf-rwctl"):
           items.append(("lists", f, mode, first, L_none))
@@ -1668,13 +1934,20 @@ def run (cfg):
     for a in allc:
       items.append(("portmod", a, tuple(small if cfg.quick else allc)))
   L_life = cfg.pick(4, 5)
+  L_traffic = cfg.pick(2, 3)
+  n_life = 0
   if only in (None, "lifecycle"):
-    hs = lifecycle_histories(L_life)
+    hs = lifecycle_histories(L_life) + traffic_histories(L_traffic)
+    n_life = len(hs)
     n = max(1, cfg.workers * 4)
     for i in range(n):
       if hs[i::n]: items.append(("lifecycle", tuple(hs[i::n])))
   if only in (None, "sweeps"):
     items += sweep_items(cfg.quick)
+  if only in (None, "portnum"):
+    pairs = [(a, b) for a in PN_NUMBERS for b in PN_NUMBERS if a != b]
+    pairs += [(R.OFPP_MAX, n) for n in (0x7f, R.OFPP_MAX - 1)] + [(n, R.OFPP_MAX) for n in (0x7f, R.OFPP_MAX - 1)]
+    for i in range(0, len(pairs), 12): items.append(("portnum", tuple(pairs[i:i + 12])))
   react_n = cfg.pick(1, 2)
   n_hist = n_hsteps = 0
   if only in (None, "history"):
@@ -1698,7 +1971,8 @@ def run (cfg):
               % (L_main, "all" if cfg.quick else "the main (<=%d extra)" % L_extra, L_none))
   rep.rule = ("A: every action list of length <=%d over %d actions (%s) x frames %s, delivered as a flow entry hit by the frame on "
               "port 1 (TABLE excluded: only valid in packet-out) and as a packet-out with in_port 1; length <=%d with in_port NONE; "
-              "length <=%d for frames %s; %d boundary-argument lists and %d fixed length-5/6 lists per frame and delivery; "
+              "length <=%d for frames %s; %d boundary-argument lists and %d fixed length-5/6 lists per frame and delivery, these "
+              "also for the frames %s (all deliveries, buffered ones included); "
               "buffered deliveries (lists with >=1 output; the frame first reaches the controller through a flow entry's "
               "output:CONTROLLER / a table miss / a packet-out's output:CONTROLLER / a flow [set_vlan_vid, output:CONTROLLER, "
               "set_dl_dst], the list then arrives in a packet-out or flow-mod naming the buffer id): %s. "
@@ -1708,7 +1982,11 @@ def run (cfg):
               "C: port-mod transitions a->b (%s) with full and changed-bits masks, read back via features reply. "
               "D: every history of <=%d operations on port 2 over {port-mod set/clear PORT_DOWN, NO_FWD, NO_FLOOD; delete_port; add_port of "
               "the returned port object} (port-mods on the removed port must be refused), then features reply and delivery probes "
-              "output:2 / enqueue:2 / FLOOD / ALL / IN_PORT(frame entering on 2), each as packet-out and as flow entry, then port stats. "
+              "output:2 / enqueue:2 / FLOOD / ALL / IN_PORT(frame entering on 2), each as packet-out and as flow entry, and a frame from "
+              "the wire on port 2 hitting a flow entry -> output:3, then port stats; and every history of <=%d operations over {port-mod "
+              "set/clear one of PORT_DOWN, NO_FWD, NO_FLOOD, NO_RECV; port-mod setting these four bits at once to each of the 16 values; "
+              "delete_port; add_port} with that probe set run (and asserted against the configuration of the moment) or not in front of "
+              "each operation (%d histories in all). "
               "E: value sweeps, every value of each through one switch per chunk of %d (%d for lengths), every emission compared, "
               "port counters read back per chunk, failing values re-run alone on a fresh switch: %s. "
               "F: histories on one switch whose table is in_port 1 -> [output:4], 2 -> [set_vlan_pcp 9, output:3] (cannot be serialised), "
@@ -1721,38 +1999,52 @@ def run (cfg):
               "raises, for every k up to the number of callouts the step makes} (%d steps), each followed by %d probe steps (plain and nested "
               "TABLE resubmissions, frames from the wire, other frames) and a port-stats request; the whole also with a cable that feeds every "
               "frame emitted on port 2 back into port 1 from inside the DpPacketOut event; %d histories. "
+              "G: a switch with ports 1-4 and two more numbered a, b (every ordered pair out of %s, and OFPP_MAX with 0x7f / 0xfeff either "
+              "way round; added by add_port), the frame "
+              "entering on a: %s as packet-out and as flow entry, again after port-mod NO_FLOOD and after port-mod NO_FWD on b; port "
+              "stats for all ports and for a, b alone. "
               "One fresh switch per case in A-D; cases are distinct as (frame, delivery, action list) / (configs, kind, delivery); "
               "distinct outcomes = distinct (case class, emitted (port, frame) sequence, packet-ins, verdict)"
               % (L_main, n_alpha, ",".join(l for l, a in ALPHA), ",".join(MAIN_FRAMES), L_none, L_extra, ",".join(EXTRA_FRAMES),
-                 len(argument_lists("pout")), len(fixed_long_lists("pout")), BUF_RULE,
+                 len(argument_lists("pout")), len(fixed_long_lists("pout")), ",".join(WIDE_FRAMES), BUF_RULE,
                  "pairs with at least one side in {none, one bit, all bits}" if cfg.quick else "full 64x64 product",
-                 ",".join(PORT_KINDS), "64 x 8" if cfg.quick else "64 x 64", L_life, SWEEP_CHUNK, LEN_CHUNK,
+                 ",".join(PORT_KINDS), "64 x 8" if cfg.quick else "64 x 64", L_life, L_traffic, n_life, SWEEP_CHUNK, LEN_CHUNK,
                  "; ".join("%s = %s, %d values, %s [%s]" % (x[0], x[6], x[3], {"flow": "flow entry", "pout": "packet-out", "buf-miss": "buffer release"}[x[2]],
                                                               ",".join(l.split("=")[0] for l in x[5](1)))
                            for x in SWEEPS if x[1] == "q" or not cfg.quick),
                  "every single step" if cfg.quick else "every single step, and every pair (any step, then a step without fault out of a reduced set)",
-                 " | ".join(",".join(o) for o in H_OUTER), react_n, " | ".join(",".join(o) for o in H_RL), n_hsteps, len(H_TAIL), n_hist))
+                 " | ".join(",".join(o) for o in H_OUTER), react_n, " | ".join(",".join(o) for o in H_RL), n_hsteps, len(H_TAIL), n_hist,
+                 ",".join("%#x" % n for n in PN_NUMBERS), ",".join(PN_KINDS)))
   rep.bound = dict(history_steps=cfg.pick(1, 2), history_step_alphabet=n_hsteps, histories=n_hist, reactions_per_step=react_n,
                    faults_per_step=1, list_length=L_main, list_length_extra_frames=L_extra, list_length_in_port_none=L_none, alphabet=n_alpha,
-                   frames=len(MAIN_FRAMES) + len(EXTRA_FRAMES), ports=NPORTS, port_history_depth=L_life,
+                   frames=len(MAIN_FRAMES) + len(EXTRA_FRAMES) + len(WIDE_FRAMES), ports=NPORTS, port_history_depth=L_life,
+                   port_history_with_traffic_operations=L_traffic, port_histories=n_life,
                    sweeps=len([x for x in SWEEPS if x[1] == "q" or not cfg.quick]),
                    sweep_values=sum(x[3] for x in SWEEPS if x[1] == "q" or not cfg.quick))
   rep.assumptions = [
     "corpus frames carry valid lengths and checksums, present UDP checksums, zero ECN bits; set_nw_tos arguments have zero ECN bits",
     "enqueue on a switch without queues behaves as output to the named port (what the switch documents)",
-    "OFPP_TABLE is exercised in packet-outs only, against one table flow without rewrites; rx counters are not asserted for lists containing it",
+    "OFPP_TABLE is exercised in packet-outs only, against one table flow without rewrites; a packet-out (and a resubmission to the "
+    "table it causes) is not a frame received on the port it names as in_port",
+    "an EtherType other than 0x8100 is not a VLAN tag and one other than 0x0800 (directly or inside one 0x8100 tag) is not IPv4, whatever "
+    "the bytes after it look like (802.1ad / QinQ tag types included: OpenFlow 1.0 has one tag type); an ICMP message is payload of its "
+    "IP datagram, the datagram an error message quotes included",
     "relative order of emissions is compared per port, not across ports",
     "a port's config bits belong to its ofp_phy_port description and survive delete_port/add_port of that object; whether a removed "
-    "port keeps a statistics entry and whether counters restart on re-addition before any traffic is not asserted",
+    "port keeps a statistics entry and whether counters restart on re-addition is not asserted (either total is accepted); a frame "
+    "arriving from the wire on a PORT_DOWN port may be processed or not",
     "a buffered frame is released with the ingress port it arrived on; the packet-out releasing it names that port as in_port",
     "IP fragments are combined with link-layer rewrites and outputs only",
+    "port numbers 1..OFPP_MAX (0xff00, 'maximum number of physical switch ports'; the virtual ports start at 0xfff8) are physical ports; "
+    "the four cases with a port numbered OFPP_MAX itself report under one key of their own (C12:portnum:ofpp-max-is-a-physical-port)",
     "unspecified and therefore not asserted: acceptance of frames arriving on a PORT_DOWN port; whether NO_PACKET_IN silences output:CONTROLLER; "
     "whether frames refused by NO_RECV/NO_RECV_STP count as received",
     "IP/TCP checksum 0x0000 and 0xffff are treated as equal (did not occur)",
     "histories (F): a message from the controller / a frame from the wire is one unit of processing; an exception raised by a callout ends "
     "the unit it occurs in (the controller's answer, when it occurs inside one) and nothing else; what a step emits in which a fault occurred "
     "is not asserted (nor, after an action list that cannot be serialised, the tx counters), every other step and the tx counters are; "
-    "rx counters are not asserted (resubmissions); the raising DpPacketOut listener runs after the recording one and the packet-in is "
+    "rx counters (frames from the wire and from the cable; packet-outs, buffer releases and OFPP_TABLE resubmissions are no receptions) "
+    "are asserted for histories without fault; the raising DpPacketOut listener runs after the recording one and the packet-in is "
     "written before its send raises, so the fault never hides a frame or message from the observer; table entries reached through "
     "OFPP_TABLE carry no rewrites (whether rewrites made by such an entry persist in the resubmitting list is not specified); a buffer "
     "holds the frame its packet-in reported, whatever the action list that caused the packet-in does afterwards",
@@ -1817,10 +2109,11 @@ def replay (cfg, data):
              "observed per frame: (emitted (port, digest), packet-in (reason, in_port)): %r" % (summary,)]
   elif k == "lifecycle":
     bad, summary, calls = run_lifecycle_case(frames, tuple(data["history"]))
-    lines = ["operations on port %d: %r (+x/-x = port-mod setting/clearing a config bit, del = delete_port, add = add_port of the returned object)"
-             % (EG, data["history"]),
-             "probes: %r as packet-out, then as flow entry" % (LC_KINDS,),
-             "(port present, config bits per reference, ports that emitted per probe): %r" % (summary,)]
+    lines = ["operations on port %d: %r (+x/-x = port-mod setting/clearing a config bit, =h = port-mod setting PORT_DOWN|NO_RECV|NO_FLOOD|NO_FWD "
+             "(mask %#x) to h, del = delete_port, add = add_port of the returned object, probe = the probe set at that point)"
+             % (EG, data["history"], LC_MASK4),
+             "probes: %r as packet-out, then as flow entry (from2: flow entry only, frame from the wire on port %d -> output:3)" % (LC_KINDS, EG),
+             "(port present, config bits per reference, ports that emitted per probe, probe sets in order): %r" % (summary,)]
   elif k == "history":
     def tup (st):
       st = list(st)
@@ -1834,6 +2127,11 @@ def replay (cfg, data):
     cable = tuple(tuple(c) for c in data.get("cable", ()))
     for c in cable: lines.append("a cable: every frame emitted on port %d is received on port %d at once" % c)
     bad, summary, calls = run_history(frames, steps, data.get("react_n", 1), trace=lines, cable=cable)
+  elif k == "portnum":
+    bad, summary, calls = run_portnum_case(frames, data["a"], data["b"])
+    lines = ["switch with ports 1-4 and (add_port) %#x, %#x; frame udp enters on %#x; probes %r as packet-out, then as flow entry; then again "
+             "after port-mod NO_FLOOD on %#x and after port-mod NO_FWD on it" % (data["a"], data["b"], data["a"], PN_KINDS, data["b"]),
+             "(emitted (port, digest), packet-in (reason, in_port)) per probe: %r" % (summary,)]
   elif k == "portmod":
     a, b = from_names(data["a"]), from_names(data["b"])
     bad, summary, calls = run_portmod_case(a, b, data["full"])
